@@ -218,11 +218,17 @@ func modeCancel1(a args) {
 				st = append(st, &scheduler.Stage{Name: t.Name, Task: t})
 				deps = append(deps, t.Name)
 			}
-			for _, t := range waiting {
+			for wi, t := range waiting {
 				s := &scheduler.Stage{Name: t.Name, Task: t, DependsOn: deps}
 				if sp.Point == "cond-error" || sp.Via == "cond" {
 					os.Symlink("/bin/true", condLink)
 					s.Condition = condLink
+				} else if sp.Idx%2 == 0 {
+					// a stage-level condition is a command too: once cancellation has completed it must not be
+					// started again. The script reports every evaluation.
+					script := fmt.Sprintf("%s/cond.%d.sh", dir, wi)
+					os.WriteFile(script, []byte(fmt.Sprintf("#!/bin/sh\nprintf 'COND:%s\\n' >> '%s'\nexit 0\n", t.Name, trace)), 0o755)
+					s.Condition = script
 				}
 				st = append(st, s)
 			}
@@ -436,6 +442,11 @@ func modeCancel1(a args) {
 	ccall := pos["CANCEL_CALL"]
 	if haveRet {
 		for i, t := range toks {
+			// only when the scheduler itself was cancelled: a scheduler that was not told about a cancelled runner
+			// keeps evaluating conditions, which is not what the statement is about
+			if sp.Via == "scheduler" && sp.Point != "before-run" && i > cret+condSlack(toks, cret) && strings.HasPrefix(t, "COND:") {
+				fail("condition-evaluated-after-cancel-returned", fmt.Sprintf("stage condition %s was executed after CANCEL_RET (and after the evaluation that was under way)", t))
+			}
 			if i > cret && (strings.HasPrefix(t, "S:") || strings.HasPrefix(t, "B:") || strings.HasPrefix(t, "A2:") || (strings.HasPrefix(t, "A:") && strings.HasSuffix(t, ":E"))) {
 				fail("command-started-after-cancel-returned", fmt.Sprintf("token %s appears after CANCEL_RET", t))
 			}
@@ -494,4 +505,82 @@ func modeCancel1(a args) {
 	out.Sample(a.Prop, cas)
 }
 
-func init() { modes["cancel1"] = modeCancel1 }
+// condSlack: the scheduling pass that was under way when Cancel returned may still evaluate the condition of
+// each waiting stage once (the condition process may even have been started before); only evaluations beyond
+// that are commands started after cancellation completed.
+func condSlack(toks []string, cret int) int {
+	seen := map[string]bool{}
+	n := 0
+	for _, t := range toks[cret+1:] {
+		if strings.HasPrefix(t, "COND:") && !seen[t] {
+			seen[t] = true
+			n++
+			continue
+		}
+		break
+	}
+	return n
+}
+
+// modeCancelRace: Run and Cancel released at the same instant, many rounds; the task has a condition that
+// prints through the runner's stdout. Anything written after Cancel has returned is a command that was
+// started after cancellation completed (or a run that Cancel did not wait for).
+type lateSink struct {
+	mu       sync.Mutex
+	canceled bool
+	late     int
+}
+
+func (l *lateSink) Write(p []byte) (int, error) {
+	l.mu.Lock()
+	if l.canceled {
+		l.late++
+	}
+	l.mu.Unlock()
+	return len(p), nil
+}
+
+func modeCancelRace(a args) {
+	rounds := a.n(150000, 2000000) / maxInt(a.Shards, 1)
+	rnd := h.NewRand(a.Seed, "cancelrace", fmt.Sprint(a.Shard))
+	late := 0
+	for i := 0; i < rounds && late == 0; i++ {
+		r := newQuietRunner()
+		sink := &lateSink{}
+		r.Stdout = sink
+		t := task.FromCommands("echo command")
+		t.Name = "racer"
+		t.Condition = "echo condition"
+		start := make(chan struct{})
+		done := make(chan struct{})
+		skew := rnd.Intn(40)
+		go func() {
+			<-start
+			r.Run(t)
+			close(done)
+		}()
+		close(start)
+		for k := 0; k < skew; k++ {
+			runtime.Gosched()
+		}
+		r.Cancel()
+		sink.mu.Lock()
+		sink.canceled = true
+		sink.mu.Unlock()
+		<-done
+		sink.mu.Lock()
+		late += sink.late
+		sink.mu.Unlock()
+		out.Count("race_rounds", 1)
+	}
+	out.Count("cases", 1)
+	if late > 0 {
+		out.Viol(a.Prop, "output-after-cancel-returned", fmt.Sprintf("%d writes of a task's condition/commands arrived after Cancel had returned: a run that started alongside the cancellation was neither refused nor waited for", late), map[string]interface{}{"rounds": rounds})
+	}
+	out.Nontrivial(a.Prop, fmt.Sprint("cancelrace", a.Shard))
+}
+
+func init() {
+	modes["cancel1"] = modeCancel1
+	modes["cancelrace"] = modeCancelRace
+}
